@@ -82,7 +82,7 @@ def shard_body(rows):
 # --------------------------------------------------------------------------- direct oracles
 
 def taiko_class(r):
-    """Known_taiko of DESIGN §6 F6"""
+    """class of the former finding F6c (fixed by 0673ba4; no longer listed, so it suppresses nothing)"""
     flags = r["view"]
     if flags and any(flags) and not flags[-1]:
         return "taiko-trailing-non-hit"
@@ -107,7 +107,7 @@ def oracle_c02(r):
                               f"gradual={v} oneshot={shots[i + 1]}"))
             break
     if vals and vals[-1] != r["full"]:
-        # the one recorded finding: a taiko map ending in non-hit objects (F6c)
+        # former finding F6c (taiko map ending in non-hit objects): fixed, reported like any other
         cls = taiko_class(r) if m == 1 else None
         out.append((cls, f"final gradual value differs from the full calculation: {vals[-1]} vs {r['full']}"))
     if not vals and r["total"] > 0:
